@@ -73,20 +73,39 @@ theorem findProxy_of_mem {q : Proxy} : ∀ {l : List Proxy}, (l.map (·.id)).Nod
 
 /-! ## The loss of a ready connection -/
 
-/-- The effects `connectionLost` appends to the log of a ready connection. -/
+/-- The effects `connectionLost` appends to the log of a ready connection: the connection-level
+callbacks, the pending table as it is after them, then the registry as it is after both (callbacks and
+errbacks may have obtained new proxies meanwhile). -/
 def lossLog (s : St) : List Fx :=
   s.dcCallbacks.map (fun c => Fx.connCb c.id) ++ (lost1 s).pending.flatMap failFx ++
-    s.registry.flatMap (proxyFx s.proxies)
+    (lost2 s).registry.flatMap (proxyFx (lost2 s).proxies)
 
-theorem registry_nodup (s : St) (hr : ReadyOk s) : (s.registry.map (·.2)).Nodup := by
-  rw [hr.reg]
-  exact hr.proxyIds.sublist ((List.filter_sublist (l := s.proxies)).map _)
+theorem proxOk_registry_nodup {s : St} (h : ProxOk s) : (s.registry.map (·.2)).Nodup := by
+  rw [h.reg]
+  exact h.proxyIds.sublist ((List.filter_sublist (l := s.proxies)).map _)
+
+theorem proxOk_slots_exist {s : St} (h : ProxOk s) : ∀ e ∈ s.registry, ∃ x, findProxy e.2 s.proxies = some x := by
+  intro e he
+  have hmem : e.2 ∈ (s.proxies.filter (·.alive)).map (·.id) := h.reg ▸ List.mem_map_of_mem he
+  obtain ⟨q, hq, hqe⟩ := List.mem_map.mp hmem
+  exact ⟨q, hqe ▸ findProxy_of_mem h.proxyIds (List.mem_filter.mp hq).1⟩
+
+theorem registry_nodup (s : St) (hr : ReadyOk s) : (s.registry.map (·.2)).Nodup :=
+  proxOk_registry_nodup hr.proxOk
+
+/-- After the first two passes the proxies / registry part of the invariant still holds and the registry
+has only grown. -/
+theorem lost2_proxOk (s : St) (hr : ReadyOk s) : ProxOk (lost2 s) ∧ RegMono s (lost2 s) := by
+  have h0 : ProxOk { s with phase := Phase.lost } := proxOk_congr hr.proxOk rfl rfl rfl (Nat.le_refl _)
+  obtain ⟨a1, a2⟩ := runConnCbs_proxOk s.dcCallbacks _ h0
+  have h1 : ProxOk { lost1 s with pending := [] } := proxOk_congr (s := lost1 s) a1 rfl rfl rfl (Nat.le_refl _)
+  obtain ⟨b1, b2⟩ := failCalls_proxOk (lost1 s).pending _ h1
+  exact ⟨b1, fun e he => b2 e (a2 e he)⟩
 
 theorem lost3_log (s : St) (hr : ReadyOk s) : (lost3 s).log = s.log ++ lossLog s := by
-  obtain ⟨_, _, _, b4, b5, b6, _⟩ := lost2_frame s
-  have hnd : ((lost2 s).registry.map (·.2)).Nodup := by rw [b4]; exact registry_nodup s hr
-  obtain ⟨_, _, _, _, _, c6⟩ := runProxies_frame (lost2 s).registry hnd (lost2 s)
-  rw [lost3, c6, b6, b4, b5, lossLog]
+  obtain ⟨_, _, _, _, b6, _⟩ := lost2_frame s
+  obtain ⟨hp, _⟩ := lost2_proxOk s hr
+  rw [lost3, runProxies_log (lost2 s).registry (proxOk_registry_nodup hp) (lost2 s) (proxOk_slots_exist hp), b6, lossLog]
   simp [List.append_assoc]
 
 theorem lost3_timers (s : St) (hr : ReadyOk s) : (lost3 s).timers = [] := by
@@ -128,7 +147,7 @@ theorem loss_call_once (s : St) (hr : ReadyOk s) (c : Call) (hc : c ∈ s.pendin
       intro y hy
       obtain ⟨d, _, rfl⟩ := List.mem_map.mp hy
       simp [Fx.completes]
-    have z3 : (s.registry.flatMap (proxyFx s.proxies)).countP (Fx.completes c.serial) = 0 := by
+    have z3 : ((lost2 s).registry.flatMap (proxyFx (lost2 s).proxies)).countP (Fx.completes c.serial) = 0 := by
       apply countP_flatMap_zero
       intro e _ y hy
       obtain ⟨d, rfl⟩ := mem_proxyFx hy
@@ -155,7 +174,7 @@ theorem loss_timer_once (s : St) (hr : ReadyOk s) (c : Call) (hc : c ∈ s.pendi
     intro y hy
     obtain ⟨d, _, rfl⟩ := List.mem_map.mp hy
     simp
-  have z3 : (s.registry.flatMap (proxyFx s.proxies)).countP (· == Fx.timerCancelled c.serial) = 0 := by
+  have z3 : ((lost2 s).registry.flatMap (proxyFx (lost2 s).proxies)).countP (· == Fx.timerCancelled c.serial) = 0 := by
     apply countP_flatMap_zero
     intro e _ y hy
     obtain ⟨d, rfl⟩ := mem_proxyFx hy
@@ -175,7 +194,7 @@ theorem loss_conncb_once (s : St) (hr : ReadyOk s) (cb : Cb) (hcb : cb ∈ s.dcC
     apply countP_flatMap_zero
     intro b _ y hy
     rcases mem_failFx hy with rfl | rfl <;> simp
-  have z3 : (s.registry.flatMap (proxyFx s.proxies)).countP (· == Fx.connCb cb.id) = 0 := by
+  have z3 : ((lost2 s).registry.flatMap (proxyFx (lost2 s).proxies)).countP (· == Fx.connCb cb.id) = 0 := by
     apply countP_flatMap_zero
     intro e _ y hy
     obtain ⟨d, rfl⟩ := mem_proxyFx hy
@@ -198,14 +217,17 @@ theorem loss_proxycb_once (s : St) (hr : ReadyOk s) (p : Proxy) (hp : p ∈ s.pr
     apply countP_flatMap_zero
     intro b _ y hy
     rcases mem_failFx hy with rfl | rfl <;> simp
-  -- the proxy is in the registry, under its own slot
+  -- the proxy is (still) in the registry, under its own slot, and unchanged
+  obtain ⟨hpo, hmono⟩ := lost2_proxOk s hr
   have hmem : p.id ∈ s.registry.map (·.2) := by
     rw [hr.reg]
     exact List.mem_map_of_mem (List.mem_filter.mpr ⟨hp, ha⟩)
   obtain ⟨e, he, hep⟩ := List.mem_map.mp hmem
-  rw [z1, z2, countP_flatMap_key (· == Fx.proxyCb p.id cb.id) (proxyFx s.proxies) (·.2) e _ (registry_nodup s hr) he]
-  · have hfind : findProxy p.id s.proxies = some p := findProxy_of_mem hr.proxyIds hp
-    simp only [proxyFx, hep, hfind, ha, if_true, Nat.zero_add]
+  have hfind : findProxy p.id (lost2 s).proxies = some p :=
+    (lost2_frame s).2.2.2.1 p.id p (findProxy_of_mem hr.proxyIds hp)
+  rw [z1, z2, countP_flatMap_key (· == Fx.proxyCb p.id cb.id) (proxyFx (lost2 s).proxies) (·.2) e _
+    (proxOk_registry_nodup hpo) (hmono e he)]
+  · simp only [proxyFx, hep, hfind, ha, if_true, Nat.zero_add]
     rw [countP_map_key (· == Fx.proxyCb p.id cb.id) (fun c => Fx.proxyCb p.id c.id) (·.id) cb _ (hr.proxyCbIds p hp) hcb]
     · simp
     · intro b _ hb; simp [hb]
